@@ -353,6 +353,9 @@ func (s *SecureConfig) Check(filePath string) (bool, error) {
 	}
 	defer file.Close()
 
+	// The hash may have been used before (the same SecureConfig checked
+	// again, e.g. when a plugin is restarted): start from a clean state.
+	s.Hash.Reset()
 	_, err = io.Copy(s.Hash, file)
 	if err != nil {
 		return false, err
